@@ -287,9 +287,8 @@ def smoothDef (L : Level) (i : Nat) (m : Mat) (tag : String) (r : LvVecs × List
   let sol := axpy 1 cor r.1.sol
   ({ r.1 with cor := cor, sol := sol, defe := defect L r.1.rhs sol }, r.2 ++ [tag, s!"D{i}"])
 
-/-- `_apply_smooth_peak` -/
-def peakLocal (L : Level) (i : Nat) (v : LvVecs) : LvVecs × List String :=
-  let r0 : LvVecs × List String := ({ v with defe := defect L v.rhs v.sol }, [s!"D{i}"])
+/-- the smoother part of `_apply_smooth_peak`: the peak smoother, or the pre- and then the post-smoother -/
+def peakTail (L : Level) (i : Nat) (r0 : LvVecs × List String) : LvVecs × List String :=
   match L.peak with
   | some m => smoothDef L i m s!"k{i}" r0
   | none =>
@@ -299,6 +298,10 @@ def peakLocal (L : Level) (i : Nat) (v : LvVecs) : LvVecs × List String :=
     match L.post with
     | some m => smoothDef L i m s!"b{i}" r1
     | none => r1
+
+/-- `_apply_smooth_peak` -/
+def peakLocal (L : Level) (i : Nat) (v : LvVecs) : LvVecs × List String :=
+  peakTail L i ({ v with defe := defect L v.rhs v.sol }, [s!"D{i}"])
 
 def stepPeak (cfg : Cfg) (i : Nat) (s : St) : St :=
   let r := peakLocal (cfg.level i) i (s.get i)
